@@ -148,7 +148,7 @@ func (g *gctx) genSub(curT bool, curKeys []int, wantT bool, depth int) stageOut 
 		}
 	}
 	id := g.id()
-	inner := g.genSeq(iin, innerKeys, iout, depth+1, g.r.Range(1, 3), false)
+	inner := g.genSeq(iin, innerKeys, iout, depth+1, g.r.Range(1, 3), false, true)
 	keys := forced
 	if keys == nil {
 		keys = inner.keys
@@ -164,7 +164,7 @@ func (w *Wrap) InOrNil() *int {
 	return w.In
 }
 
-func (g *gctx) genPar(curT bool, curKeys []int, depth int) stageOut {
+func (g *gctx) genPar(curT bool, curKeys []int, depth int, single bool) stageOut {
 	if g.inject == "dupkey" && !g.injected {
 		// two sources that emit the same key: out of the property's domain (finding F-C04)
 		g.injected = true
@@ -182,7 +182,7 @@ func (g *gctx) genPar(curT bool, curKeys []int, depth int) stageOut {
 	var kids []*Prog
 	var keys []int
 	for i := 0; i < n; i++ {
-		k := g.genSeq(curT, curKeys, true, depth+1, g.r.Range(1, 2), false)
+		k := g.genSeq(curT, curKeys, true, depth+1, g.r.Range(1, 2), false, single)
 		kids = append(kids, k.p)
 		keys = append(keys, k.keys...)
 	}
@@ -195,7 +195,7 @@ func (g *gctx) genBranch(curT bool, curKeys []int, wantT bool, depth int) stageO
 	var kids []*Prog
 	var keys map[int]int
 	for i := 0; i < n; i++ {
-		k := g.genSeq(curT, curKeys, wantT, depth+1, g.r.Range(1, 2), true)
+		k := g.genSeq(curT, curKeys, wantT, depth+1, g.r.Range(1, 2), true, true)
 		kids = append(kids, k.p)
 		if keys == nil {
 			keys = map[int]int{}
@@ -224,9 +224,11 @@ func sortInts(a []int) {
 
 // genSeq: nStages stages from a value of type tin (guaranteed keys) to one of type tout.
 // altStart: the first stage must have a single entry node and must not be a branch.
-func (g *gctx) genSeq(tin bool, keys []int, tout bool, depth int, nStages int, altStart bool) stageOut {
+// singleIn: the value entering the sequence comes from exactly one node (a branch can only
+// be attached to one start node).
+func (g *gctx) genSeq(tin bool, keys []int, tout bool, depth int, nStages int, altStart bool, singleIn bool) stageOut {
 	var stages []*Prog
-	curT, curKeys, single := tin, keys, true
+	curT, curKeys, single := tin, keys, singleIn
 	for i := 0; i < nStages; i++ {
 		last := i == nStages-1
 		wantT := tout
@@ -239,7 +241,7 @@ func (g *gctx) genSeq(tin bool, keys []int, tout bool, depth int, nStages int, a
 		deep := depth < g.maxDepth && g.budget > 2
 		switch {
 		case roll < 2 && deep && wantT && !(first && altStart):
-			st = g.genPar(curT, curKeys, depth)
+			st = g.genPar(curT, curKeys, depth, single)
 		case roll < 4 && deep && single && !(first && altStart):
 			st = g.genBranch(curT, curKeys, wantT, depth)
 		case roll < 5 && deep:
@@ -322,8 +324,8 @@ func (engine) Generate(r *lib.Rng, tier string, i int) any {
 	var st stageOut
 	if g.inject == "dupkey" {
 		// make sure the shared-key fan-in is there: [stages] ; par{k,k} ; [node]
-		head := g.genSeq(tin, keys, r.Chance(1, 2), 1, 1, false)
-		par := g.genPar(head.p.outMap(), head.keys, 1)
+		head := g.genSeq(tin, keys, r.Chance(1, 2), 1, 1, false, true)
+		par := g.genPar(head.p.outMap(), head.keys, 1, head.single)
 		stages := []*Prog{head.p, par.p}
 		if r.Chance(1, 2) {
 			tail := g.genNode(true, par.keys, tout)
@@ -331,7 +333,7 @@ func (engine) Generate(r *lib.Rng, tier string, i int) any {
 		}
 		st = stageOut{p: &Prog{Op: "seq", Kids: stages}}
 	} else {
-		st = g.genSeq(tin, keys, tout, 0, r.Range(1, 4), false)
+		st = g.genSeq(tin, keys, tout, 0, r.Range(1, 4), false, true)
 	}
 	c := &Case{Kind: "prog", Prog: st.p, Chunks: chunks}
 	if g.injected {
